@@ -1084,6 +1084,12 @@ class Mesh:
             return None, None
         indexing = np.hstack(tuple([t[ix] for ix in indices]))
         sorted_indexing = np.sort(indexing, axis=0)
+        # entities padded by repeating a vertex (triangles of a wedge):
+        # move the repeated entry to the end so that the key does not depend
+        # on which vertex was repeated
+        for itr in range(sorted_indexing.shape[0] - 2):
+            rep = sorted_indexing[itr] == sorted_indexing[itr + 1]
+            sorted_indexing[itr + 1:-1, rep] = sorted_indexing[itr + 2:, rep]
 
         sorted_indexing, ixa, ixb = np.unique(sorted_indexing,
                                               axis=1,
